@@ -327,6 +327,7 @@ impl Database {
         is_in_deleted_group: bool,
     ) -> Result<MergeLog, MergeError> {
         let mut log = MergeLog::default();
+        let mut current_group_path = current_group_path;
 
         if let Some(destination_group_location) = self.find_node_location(current_group.uuid) {
             let mut destination_group_path = destination_group_location.clone();
@@ -337,6 +338,11 @@ impl Database {
             };
             let group_update_merge_events = destination_group.merge_with(&current_group)?;
             log.append(&group_update_merge_events);
+
+            // The group may live at a different place in the destination than in the source
+            // (e.g. it was moved on one side). Its children have to be looked up and created
+            // at the place where the destination keeps it.
+            current_group_path = destination_group_path;
         }
 
         for other_entry in &current_group.entries() {
